@@ -379,16 +379,26 @@ func (g *G) history(rid int, c histCfg, steps int) {
 		g.emit("handle %d %s %d %s %s", rid, encB(p), nextH, "%-", encL([]string{"GET"}))
 		nextH++
 		// two routes that share a handler-less intermediate node next to the indexed siblings
+		var stemRoutes []string
 		if g.chance(0.7) {
 			stem := parent + g.pick([]string{"a", "z", "m"}) + g.pick([]string{"b", "q"})
 			for _, tail := range []string{"1", "2", "/" + g.token(c.useIc)}[:2+g.intn(2)] {
 				q := stem + tail
 				pool = append(pool, q)
+				stemRoutes = append(stemRoutes, q)
 				g.emit("handle %d %s %d %s %s", rid, encB(q), nextH, "%-", encL([]string{"GET"}))
 				nextH++
 			}
 		}
 		probe()
+		if !c.addOnly && len(stemRoutes) > 0 && g.chance(0.5) {
+			// remove the routes below the handler-less intermediate node one after the other: the last removal prunes two
+			// levels at once under a parent that has a first-byte index
+			for _, q := range stemRoutes {
+				g.emit("remove %d %s %s", rid, encB(q), "%-")
+				probe()
+			}
+		}
 	}
 	for s := 0; s < steps && !g.full(); s++ {
 		k := g.intn(100)
@@ -496,6 +506,16 @@ func streamDispatch(g *G) { // C01
 	}
 }
 
+// overlapFamilies: an interceptor parameter (whose constraint can refuse a candidate) followed by literal text that can
+// overlap itself; the paths put a refused occurrence of that text right before an overlapping one.
+var overlapFamilies = []struct{ pats, paths []string }{
+	{[]string{"/t/{tag:any}--edit", "/t/{tag:any}--view"}, []string{"/t/---edit", "/t/----view", "/t/x--view", "/t/--edit", "/t/-----edit", "/t/a--b--view"}},
+	{[]string{"/tags/{tag:any}--{n:digit}"}, []string{"/tags/---5", "/tags/a--5", "/tags/--a--5", "/tags/----7", "/tags/a--b--5", "/tags/--5"}},
+	{[]string{"/o/{a:any}aa", "/o/{a:any}aa/z"}, []string{"/o/aaa", "/o/aaaa", "/o/aa", "/o/aaa/z", "/o/baa", "/o/aaaaa/z"}},
+	{[]string{"/w{w:word}abab/{n}", "/w{w:word}abab"}, []string{"/wababab/1", "/wabababab", "/wxabab/2", "/wabab/3", "/wab-abab/4", "/w-ababab"}},
+	{[]string{"/d/{id:digit}11/x", "/d/{id:digit}11/y"}, []string{"/d/111/x", "/d/1111/y", "/d/11/x", "/d/a111/x", "/d/2111/y", "/d/1a11/x"}},
+}
+
 func streamResolve(g *G) { // C02: add-only tables, several registration orders
 	rid := 1
 	for !g.full() {
@@ -518,6 +538,13 @@ func streamResolve(g *G) { // C02: add-only tables, several registration orders
 		var paths []string
 		for i := 0; i < 12; i++ {
 			paths = append(paths, g.pathFor(pats))
+		}
+		if useIc && g.chance(0.35) { // a refusing constraint in front of literal text that overlaps itself
+			fam := overlapFamilies[g.intn(len(overlapFamilies))]
+			pats = append(pats, fam.pats...)
+			for i := 0; i < 6; i++ {
+				paths = append(paths, g.pick(fam.paths))
+			}
 		}
 		for ord := 0; ord < 3; ord++ {
 			o := routerOpt{name: "r"}
@@ -666,6 +693,33 @@ func (g *G) twinFamily(rid int) {
 	}
 }
 
+// lateRejectFamily: a Handle that is rejected for its method list (TRACE on a WithTrace router, a reserved or unknown
+// method in last position) on a NEW pattern that would split an existing parameter node; probes whose parameter value
+// contains the following literal text see a split at once.
+func (g *G) lateRejectFamily(rid int) {
+	g.routerLine(rid, routerOpt{name: "late" + strconv.Itoa(rid), trace: g.chance(0.7)})
+	tok := g.pick([]string{"{b}", "{b:\\w+}", "{b:\\d+}"})
+	tok2 := g.pick([]string{"{a:\\w+}", "{c:[0-9a-z]+}"})
+	pre := g.pick([]string{"/", "/p/", ""})
+	g.emit("handle %d %s 1 %s %s", rid, encB(pre+tok2+"/x"), "%-", encL([]string{"GET"}))
+	g.emit("handle %d %s 2 %s %s", rid, encB(pre+tok+"/x"), "%-", encL([]string{"GET"}))
+	probe := func() {
+		g.emit("routes %d", rid)
+		for _, p := range []string{pre + "a/b/x", pre + "5/x", pre + "a/x", pre + "5/y", pre + "a/b/y", pre + "55/x/x"} {
+			for _, m := range []string{"GET", "POST", "OPTIONS", "TRACE"} {
+				g.serveLine("serve", rid, m, p, "", nil)
+			}
+		}
+	}
+	probe()
+	h := 3
+	for _, ms := range [][]string{{"GET", "TRACE"}, {"TRACE"}, {"POST", "HEAD"}, {"PUT", "OPTIONS"}, {"DELETE", "BOGUS"}, {"GET", "GET"}, {"PATCH", "TRACE", "GET"}} {
+		g.emit("handle %d %s %d %s %s", rid, encB(pre+tok+g.pick([]string{"/y", "/xy", "/", "-z"})), h, "%-", encL(ms))
+		h++
+		probe()
+	}
+}
+
 func streamReject(g *G) { // C17
 	rid := 1
 	for !g.full() {
@@ -675,6 +729,10 @@ func streamReject(g *G) { // C17
 		}
 		if g.chance(0.3) {
 			g.twinFamily(rid)
+			rid++
+		}
+		if g.chance(0.3) {
+			g.lateRejectFamily(rid)
 			rid++
 		}
 		g.history(rid, histCfg{useIc: g.chance(0.3), trace: g.chance(0.3), probes: 1, probeAll: true, invalid: 0.5, siblings: g.chance(0.2)}, 6+g.intn(14))
@@ -975,6 +1033,24 @@ func streamHosts(g *G) { // C14
 			initial = append(initial, g.pick(doms))
 		}
 		initial = dedup(initial)
+		if g.chance(0.3) {
+			// >= 5 top-level domains (first-byte index) two of which hang under a handler-less split node ("ap"):
+			// deleting both prunes two levels at once
+			tld := g.pick([]string{"example.com", "h.io"})
+			fam := []string{"api." + tld, "app." + tld, "blog." + tld, "cdn." + tld, "docs." + tld, tld, "{sub}." + tld}
+			g.emit("hosts %d %s", hid, encL(fam))
+			probe := func() {
+				for _, h := range []string{"api." + tld, "app." + tld, "blog." + tld, "cdn." + tld, "docs." + tld, tld, "www." + tld, "a." + tld} {
+					g.emit("hosts-match %d %s", hid, encB(h))
+				}
+			}
+			probe()
+			for _, d := range []string{"api." + tld, "APP." + tld, "cdn." + tld} {
+				g.emit("hosts-del %d %s", hid, encB(d))
+				probe()
+			}
+			hid++
+		}
 		g.emit("hosts %d %s", hid, encL(initial))
 		for s := 0; s < 12; s++ {
 			switch g.intn(5) {
@@ -1507,6 +1583,11 @@ func twinPattern(p string) string {
 
 func streamUnit(g *G) { // unit level: the parser and the segment matcher through the verif hooks
 	ic := encKVs(icptTable)
+	for _, seg := range []string{"{tag:any}--edit", "{tag:any}--", "{a:any}aa", "{w:word}abab/", "{id:digit}11/x", "{e:even}22", "{s:starta}aa"} {
+		for _, path := range []string{"---edit", "----edit", "--edit", "x--edit", "aaa", "aaaa", "aa", "ababab/", "abababab/", "111/x", "1111/x", "2222", "222", "22", "aaaaa", "aaa-aa"} {
+			g.emit("u-match %s %s %s", ic, encB(seg), encB(path))
+		}
+	}
 	for !g.full() {
 		useIc := g.chance(0.5)
 		p := g.pattern(useIc)
